@@ -26,7 +26,7 @@ COMPONENTS = {
     "real": ["reader", "compiler", "VM", "collector (gc.c)", "bignum.c", "SRFI 69/95/151/18 C modules", "chibi json", "string/bytevector ports"],
     "stub": ["clock (frozen simulated clock)", "collection schedule (simulator decides when sexp_gc runs)"],
 }
-BUDGET = {"quick": {"seconds": 75, "cases": 4000}, "thorough": {"seconds": 1500, "cases": 400000}}
+BUDGET = {"quick": {"seconds": 75, "cases": 4000, "min_cases": 250}, "thorough": {"seconds": 1500, "cases": 400000}}
 
 IMPORTS = progs.ALL_IMPORTS
 CONFIGS = {
